@@ -39,43 +39,55 @@ META = dict(
 CFG = '''SPECIFICATION Spec
 CONSTANTS
   SafeFilter = %s
+  FindRestoresAlways = %s
 %s
 CHECK_DEADLOCK FALSE
 '''
 
 
-def cfgfile(ctx, name, body, safe='TRUE'):
+def cfgfile(ctx, name, body, safe='TRUE', findrestores='TRUE'):
     p = os.path.join(ctx.tmp, name)
     with open(p, 'w') as f:
-        f.write(CFG % (safe, body))
+        f.write(CFG % (safe, findrestores, body))
     return p
 
 
 def run_workers(ctx, items, nproc=12):
+    """Subprocess-environment rows share a worker process per chunk (each row gets its own helper); in-process rows
+    import into the worker itself, so every one of them runs in a worker process of its own."""
     d = ctx.sub('c12')
-    procs = []
-    chunks = [items[i::nproc] for i in range(nproc)]
-    for i, ch in enumerate(chunks):
-        if not ch:
-            continue
+    chunks = [[k for k in range(len(items)) if items[k].get('envkind') != 'inprocess'][i::nproc] for i in range(nproc)]
+    chunks += [[k] for k in range(len(items)) if items[k].get('envkind') == 'inprocess']
+    chunks = [c for c in chunks if c]
+    out = [None] * len(items)
+    pending = list(enumerate(chunks))
+    running = []
+    extdir = os.path.join(d, 'extcache')
+    subprocess.run([PY, os.path.join(VERIF, 'harness', 'c12_worker.py'), '--build-ext', extdir], check=False,
+                   stdout=subprocess.DEVNULL, stderr=subprocess.DEVNULL)
+
+    def start(i, ch):
         envdir = os.path.join(d, 'envdir%d' % i)
         os.makedirs(envdir, exist_ok=True)
         jp, op = os.path.join(d, 'j%d.json' % i), os.path.join(d, 'o%d.json' % i)
         with open(jp, 'w') as f:
-            json.dump(ch, f)
-        env = dict(os.environ, VERIF_REPO=REPO, PYTHONPATH=os.pathsep.join([REPO, VERIF, envdir]), C12_ENVDIR=envdir,
-                   C12_TMP=d, JEDI_VERIF='1')
-        procs.append((i, subprocess.Popen([PY, os.path.join(VERIF, 'harness', 'c12_worker.py'), jp, op], env=env, cwd=d,
-                                          stdout=subprocess.PIPE, stderr=subprocess.STDOUT), op))
-    out = [None] * len(items)
-    for i, p, op in procs:
+            json.dump([items[k] for k in ch], f)
+        env = dict(os.environ, VERIF_REPO=REPO, PYTHONPATH=os.pathsep.join([envdir, REPO, VERIF]), C12_ENVDIR=envdir,
+                   C12_TMP=d, JEDI_VERIF='1', C12_EXTDIR=extdir)
+        return (ch, subprocess.Popen([PY, os.path.join(VERIF, 'harness', 'c12_worker.py'), jp, op], env=env, cwd=d,
+                                     stdout=subprocess.PIPE, stderr=subprocess.STDOUT), op)
+    while pending or running:
+        while pending and len(running) < nproc + 4:
+            i, ch = pending.pop(0)
+            running.append(start(i, ch))
+        ch, p, op = running.pop(0)
         so, _ = p.communicate(timeout=3000)
         if p.returncode != 0 or not os.path.exists(op):
             raise MachineryError('c12 worker failed: %s' % so.decode()[-1500:])
-        for j, r in enumerate(json.load(open(op))):
+        for k, r in zip(ch, json.load(open(op))):
             if '_worker_error' in r:
                 raise MachineryError('c12 worker error: ' + r['_worker_error'])
-            out[i + j * nproc] = r
+            out[k] = r
     return out
 
 
@@ -183,17 +195,22 @@ def run(ctx):
         raise MachineryError('without the safe-path filter the model should import project code')
     last = res.trace[-1]['vars']
     ctx.coverage['whatif_no_filter_counterexample'] = {k: last.get(k) for k in ('kind', 'loc', 'nm', 'syspath', 'smart', 'unsafe')}
+    res = run_tlc('NoExec', cfgfile(ctx, 'whatif2.cfg', 'INVARIANT PathRestored', findrestores='FALSE'), workers=4, timeout=600)
+    ctx.add_tlc(res, 'what-if: sys.path not restored after a failed module lookup (must fail)')
+    if res.violated != 'PathRestored':
+        raise MachineryError('without the finally block of get_module_info the model should leave sys.path swapped')
     res = run_tlc('NoExec', cfgfile(ctx, 'emit.cfg', 'CONSTRAINT Emit'), workers=1, timeout=900)
     ctx.add_tlc(res, 'decision table emission')
     rows = cases(res)
-    if len(rows) != 648:
-        raise MachineryError('expected 648 rows, got %d' % len(rows))
+    if len(rows) != 1296:
+        raise MachineryError('expected 1296 rows, got %d' % len(rows))
     if quick:
         # every row with a possible execution path, plus a seeded third of the rest
         key = [r for r in rows if r['kind'] in ('extension', 'sourceless') or r['nm'] == 'auto']
         rest = [r for r in rows if r not in key]
         ctx.rng.shuffle(rest)
-        rows = key[::2] if ctx.seed % 2 == 0 else key[1::2]
+        rows = key[::4] if ctx.seed % 2 == 0 else key[1::4]
+        rows += [r for r in key if r['envkind'] == 'inprocess' and r not in rows][ctx.seed % 3::3]
         rows += rest[:90]
     for i, r in enumerate(rows):
         r['idx'] = i
@@ -207,7 +224,7 @@ def run(ctx):
             continue
         c = r['case']
         if bool(r['target_executed']) != bool(c['executed']):
-            ctx.drift({'case': {k: c[k] for k in ('kind', 'loc', 'nm', 'syspath', 'smart', 'unsafe')},
+            ctx.drift({'case': {k: c[k] for k in ('kind', 'loc', 'nm', 'syspath', 'smart', 'unsafe', 'envkind')},
                        'model_executed': c['executed'], 'real_executed': r['target_executed'], 'execs': r['execs'][:3]})
         traces.append([event(r)])
         kept.append(r)
